@@ -231,3 +231,73 @@ func FeatureKeys(m map[string]int) []string {
 	sort.Strings(ks)
 	return ks
 }
+
+// Variant changes how a case is run on both sides (used by C13: the chunk is
+// dumped and reloaded; function literals go through redump).
+type Variant struct {
+	// HostPrelude is Lua source run in the golua session before the program.
+	HostPrelude string
+	// RefSetup installs the reference's counterpart of the prelude.
+	RefSetup func(it *refvm.Interp)
+	// Via turns the compiled closure into the function that is called (may use
+	// a second session, returned so that it is closed afterwards). A non-nil
+	// Mismatch aborts the case with that verdict.
+	Via func(s *gl.Sess, clos *rt.Closure) (f rt.Value, run *gl.Sess, mis *Mismatch)
+}
+
+// CheckVariant is Check with a Variant.
+func CheckVariant(p *lg.Program, text string, lines lg.Lines, args []Arg, v Variant) *Case {
+	c := &Case{Text: text, Args: args}
+	rargs := make([]refvm.Value, len(args))
+	for i, a := range args {
+		rargs[i] = a.Ref
+	}
+	c.Want = refvm.Run(p.Chunk, lines, rargs, refvm.Options{Chunk: ChunkName, Setup: v.RefSetup})
+	if c.Want.Kind == "unspecified" {
+		c.Skip = c.Want.Reason
+		return c
+	}
+	c.Events = len(c.Want.Trace)
+	s := gl.NewSess(gl.Options{})
+	defer s.Close()
+	if v.HostPrelude != "" {
+		pc, out := s.Compile("prelude", v.HostPrelude)
+		if out == nil {
+			out = s.Call(rt.FunctionValue(pc), nil)
+		}
+		if out.Kind != gl.OK {
+			c.Got = out
+			c.Mis = &Mismatch{"prelude", "host prelude failed: " + out.Kind + " " + out.ErrMsg + out.PanicMsg}
+			return c
+		}
+	}
+	clos, out := s.Compile(ChunkName, text)
+	if out != nil {
+		c.Got = out
+		c.Mis = Compare(c.Want, out)
+		return c
+	}
+	f := rt.FunctionValue(clos)
+	run := s
+	if v.Via != nil {
+		var mis *Mismatch
+		f, run, mis = v.Via(s, clos)
+		if run != nil && run != s {
+			defer run.Close()
+		}
+		if mis != nil {
+			c.Mis = mis
+			return c
+		}
+		if run == nil {
+			run = s
+		}
+	}
+	rtargs := make([]rt.Value, len(args))
+	for i, a := range args {
+		rtargs[i] = a.Rt
+	}
+	c.Got = run.Call(f, rtargs)
+	c.Mis = Compare(c.Want, c.Got)
+	return c
+}
